@@ -222,6 +222,7 @@ func (te *taskEnv) execM3(op *Op, rec *OpRec) bool {
 		}
 		for !st.is(&st.closeReturned) {
 			x.obj.(tally.CachedCount).ReportCount(1)
+			simrt.Yield() // a scheduling point even if ReportCount has none of its own
 		}
 	default:
 		return false
